@@ -16,6 +16,9 @@ struct DriverBase {
     // set by a driver for a step whose outcome the library documents (refusal, clamp): if the handler is entered there,
     // the documented answer was not given, which also breaks the functional property named here
     char const* answerProp = nullptr;
+    // false for a step whose precondition belongs to an inner object (flat_set inserting into its full backing vector: the
+    // key is built by flat_set before the vector can object), so that user code legitimately runs before the handler
+    bool userCodeCheck = true;
 
     DriverBase(Plan const& p, Ctx& c)
         : plan(p)
@@ -29,8 +32,9 @@ struct DriverBase {
 
     void begin_op(char const* name, int a)
     {
-        ctx.op     = name;
-        answerProp = nullptr;
+        ctx.op        = name;
+        answerProp    = nullptr;
+        userCodeCheck = true;
         crash_set_op(name);
         ctx.log.s(name);
         ctx.log.kv("a", a);
@@ -65,7 +69,12 @@ struct DriverBase {
             g_crash.stepClass = 2;
         }
         reg().mark_harness_held();
+        uint64_t const userCallsBefore = g_user_calls != nullptr ? g_user_calls() : 0;
         auto out = guarded(true, static_cast<F&&>(f));
+        if (out == Outcome::trapped && expectTrap && !late && userCodeCheck && g_trap.userCalls != userCallsBefore) {
+            // the violation is visible from the arguments alone: the handler has to run before any user code does
+            ctx.violation("C05", "contract:user-code-before-handler", "an element constructor / assignment ran before the handler was entered at " + trap_site());
+        }
         if (expectTrap && s >= 0 && !arena_guards_ok(s)) {
             ctx.violation("C05", "contract:damage-before-handler:guard", "memory outside the object was written by a precondition-violating call");
             arena_guards_repair(s);
